@@ -9,6 +9,7 @@
 #include <cstdlib>
 #include <cstring>
 #include <exception>
+#include <link.h>
 #include <linux/futex.h>
 #include <memory>
 #include <pthread.h>
@@ -279,9 +280,41 @@ void block_self(T& me) {
   me.st = RUNNABLE; me.wk = W_NONE; me.timed = false; me.deadline = LLONG_MAX;
 }
 
-void* thread_main(void* p) {
-  T* t = static_cast<T*>(p);
+// ---- OS thread pool ----
+// Logical threads of successive executions are run on pooled OS threads (creating an OS thread under a
+// sanitizer costs ~0.7 ms). Before a pooled thread takes a new logical thread, the executable's static TLS
+// block is reset to its initial image, so thread_local state starts clean exactly as on a fresh thread.
+struct OsThread {
+  pthread_t th{};
+  std::atomic<int> wake{0};
+  std::atomic<int> idle{1};
+  T* assigned = nullptr;
+};
+std::vector<OsThread*> g_pool;
+std::atomic<int> g_busy{0};
+struct TlsImage { size_t memsz = 0, filesz = 0; const void* init = nullptr; bool known = false; } g_tls;
+int phdr_cb(struct dl_phdr_info* info, size_t, void* data) {
+  if (info->dlpi_name && info->dlpi_name[0]) return 0;  // only the main executable
+  for (int i = 0; i < info->dlpi_phnum; ++i) {
+    const ElfW(Phdr)& ph = info->dlpi_phdr[i];
+    if (ph.p_type != PT_TLS) continue;
+    g_tls.memsz = ph.p_memsz; g_tls.filesz = ph.p_filesz;
+    g_tls.init = (const void*)(info->dlpi_addr + ph.p_vaddr);
+    g_tls.known = true;
+    *(void**)data = info->dlpi_tls_data;
+  }
+  return 1;
+}
+void reset_exe_tls(void*& block) {
+  if (!block) dl_iterate_phdr(phdr_cb, &block);
+  if (!block || !g_tls.known) return;
+  std::memcpy(block, g_tls.init, g_tls.filesz);
+  std::memset((char*)block + g_tls.filesz, 0, g_tls.memsz - g_tls.filesz);
+}
+
+void run_logical(T* t) {
   tl_self = t->id;
+  tl_in_rt = false;
   { Ign ig; fwait(&t->go); }
   t->body();
   Ign ig;
@@ -290,18 +323,48 @@ void* thread_main(void* p) {
   int id = t->id;
   int next = decide(id, false, false);
   tl_self = -1;
-  if (next < 0) { fwake(&g_ctl_go); return nullptr; }
+  if (next < 0) { fwake(&g_ctl_go); return; }
   T& nx = *g_threads[next];
   nx.st = RUNNABLE; nx.wk = W_NONE;
   fwake(&nx.go);
+}
+
+void* pool_main(void* p) {
+  OsThread* me = static_cast<OsThread*>(p);
+  void* tls_block = nullptr;
+  for (;;) {
+    { Ign ig; fwait(&me->wake); }
+    T* t = me->assigned;
+    reset_exe_tls(tls_block);
+    run_logical(t);
+    me->idle.store(1, std::memory_order_release);
+    if (g_busy.fetch_sub(1, std::memory_order_acq_rel) == 1) futex(&g_busy, FUTEX_WAKE_PRIVATE, INT_MAX);
+  }
   return nullptr;
 }
 
 void start_os_thread(T* raw) {
-  pthread_attr_t a; pthread_attr_init(&a);
-  pthread_attr_setstacksize(&a, 4 << 20);
-  if (pthread_create(&raw->os, &a, thread_main, raw) != 0) { std::perror("pthread_create"); _exit(3); }
-  pthread_attr_destroy(&a);
+  OsThread* os = nullptr;
+  for (auto* o : g_pool) if (o->idle.load(std::memory_order_acquire)) { os = o; break; }
+  if (!os) {
+    os = new OsThread();
+    pthread_attr_t a; pthread_attr_init(&a);
+    pthread_attr_setstacksize(&a, 4 << 20);
+    if (pthread_create(&os->th, &a, pool_main, os) != 0) { std::perror("pthread_create"); _exit(3); }
+    pthread_attr_destroy(&a);
+    g_pool.push_back(os);
+  }
+  os->idle.store(0, std::memory_order_relaxed);
+  os->assigned = raw;
+  g_busy.fetch_add(1, std::memory_order_acq_rel);
+  fwake(&os->wake);
+}
+void wait_all_os_idle() {
+  for (;;) {
+    int b = g_busy.load(std::memory_order_acquire);
+    if (b == 0) return;
+    futex(&g_busy, FUTEX_WAIT_PRIVATE, b);
+  }
 }
 
 void terminate_handler() {
@@ -603,7 +666,7 @@ void run_once(const HarnessInfo& h, const uint16_t* prefix, uint32_t nprefix) {
     start_os_thread(raw);
     fwake(&raw->go);
     fwait(&g_ctl_go);
-    for (auto& th : g_threads) pthread_join(th->os, nullptr);
+    wait_all_os_idle();
   }
   g_active = false;
   if (g_rec->npoints.load(std::memory_order_relaxed) < nprefix) {
